@@ -318,7 +318,7 @@ def _check_imported(u, g, tag, fails, facts, opts):
             except Exception as e:  # noqa
                 fails.append(("roundtrip-through-reference-failed", dict(inp, site="roundtrip"), repr(e)[:300]))
         if u.get("wkt"):
-            check_wkt(m, Ref, anns, stub, mapping, pyd, base_in, fails)
+            check_wkt(m, Ref, anns, stub, mapping, pyd, base_in, fails, [x for x in features(cur, None, u) if x == "package-named-like-bundled-library"])
         try:
             Ref._type_hints()
         except Exception as e:  # noqa
@@ -328,14 +328,14 @@ def _check_imported(u, g, tag, fails, facts, opts):
     return fails, facts
 
 
-def check_wkt(m, Ref, anns, stub, mapping, pyd, base_in, fails):
+def check_wkt(m, Ref, anns, stub, mapping, pyd, base_in, fails, ufeats=()):
     import datetime
     lib = importlib.import_module("betterproto.lib.pydantic.google.protobuf" if pyd else "betterproto.lib.google.protobuf")
     unwrapped = {"Timestamp": datetime.datetime, "Duration": datetime.timedelta, "DoubleValue": float, "FloatValue": float,
                  "Int32Value": int, "Int64Value": int, "UInt32Value": int, "UInt64Value": int, "BoolValue": bool,
                  "StringValue": str, "BytesValue": bytes}
     for j, w in enumerate(WKT):
-        inp = dict(base_in, tgt="google.protobuf", site="wkt-field", field="w%d" % j, expect=w, features=[])
+        inp = dict(base_in, tgt="google.protobuf", site="wkt-field", field="w%d" % j, expect=w, features=list(ufeats))
         try:
             hint = eval_annotation(m, anns["w%d" % j])
         except Exception as e:  # noqa
@@ -350,13 +350,13 @@ def check_wkt(m, Ref, anns, stub, mapping, pyd, base_in, fails):
     if not isinstance(mapping, Exception):
         hs = [h for route, h in mapping.items() if route.endswith("/Wkt")]
         if len(hs) != 1 or hs[0].request_type is not lib.Empty or hs[0].reply_type is not lib.Struct:
-            fails.append(("wkt-wrong-class", dict(base_in, tgt="google.protobuf", site="wkt-rpc", features=[]), repr(hs)[:300]))
+            fails.append(("wkt-wrong-class", dict(base_in, tgt="google.protobuf", site="wkt-rpc", features=list(ufeats)), repr(hs)[:300]))
     try:
         r = Ref(**{"w%d" % WKT.index("Struct"): lib.Struct(fields={"a": lib.Value(number_value=1.5)}), "w%d" % WKT.index("Int32Value"): 7})
         if Ref().parse(bytes(r)) != r:
-            fails.append(("roundtrip-through-reference-failed", dict(base_in, tgt="google.protobuf", site="wkt-roundtrip", features=[]), repr(r)))
+            fails.append(("roundtrip-through-reference-failed", dict(base_in, tgt="google.protobuf", site="wkt-roundtrip", features=list(ufeats)), repr(r)))
     except Exception as e:  # noqa
-        fails.append(("roundtrip-through-reference-failed", dict(base_in, tgt="google.protobuf", site="wkt-roundtrip", features=[]), repr(e)[:300]))
+        fails.append(("roundtrip-through-reference-failed", dict(base_in, tgt="google.protobuf", site="wkt-roundtrip", features=list(ufeats)), repr(e)[:300]))
 
 
 def features(cur, tgt, u):
@@ -370,6 +370,9 @@ def features(cur, tgt, u):
         f.append("lower-case-type-name")
     if any("_" in seg or re.search(r"[0-9][a-z]", seg) for p in pk for seg in p):
         f.append("universe-has-underscore-segment")
+    for lib in (("betterproto", "lib", "google", "protobuf"), ("betterproto", "lib", "pydantic", "google", "protobuf")):
+        if any(len(p) > len(lib) and p[-len(lib):] == lib for p in pk):
+            f.append("package-named-like-bundled-library")
     return f
 
 
@@ -386,6 +389,8 @@ def all_at_once(ps, name, **kw):
 
 D20_UNIVERSE = {"name": "D20 underscore aliases", "packages": [(), ("a",), ("a", "b"), ("a", "b", "c"), ("a", "b_c"), ("d",), ("d", "e"), ("d_e",), ("x",)],
                 "refs": [((), [("a", "b", "c"), ("a", "b_c")]), (("x",), [("d", "e"), ("d_e",)])]}
+D50_UNIVERSE = {"name": "D50 descendant named like the bundled library", "packages": [("x",), ("x", "betterproto", "lib", "google", "protobuf")],
+                "refs": [(("x",), [("x", "betterproto", "lib", "google", "protobuf")])], "wkt": True}
 D19_CAP = {"name": "D19 capitalised package", "packages": [(), ("Cap",)], "refs": [((), [("Cap",)])]}
 D19_LOWER = {"name": "D19 lower-case type", "packages": [("a",)], "refs": [(("a",), [("a",)])], "lower_types": True}
 
@@ -575,7 +580,7 @@ def run(chk, drv):
 
     # ---------------- (b) real generation
     us = universes(chk)
-    known_us = [D20_UNIVERSE, D19_CAP, D19_LOWER]
+    known_us = [D20_UNIVERSE, D19_CAP, D19_LOWER, D50_UNIVERSE]
     results = run_universes(chk, us + known_us)
     if not quick:
         pyd_us = [u for u in us if not u["name"].startswith("pair")] + [pair_universe(c, t) for c, t in
@@ -646,6 +651,11 @@ def classify(failure, known):
                                                                     (inp.get("site") in ("lowertype", "import", "_type_hints", "import-target")
                                                                      or "lower" in failure.get("detail", "")))):
         return "D19"
+    if "D50" in ids and "package-named-like-bundled-library" in feats:
+        # the module binds the bundled library's alias by two different import statements
+        col = inp.get("collisions") or {}
+        if any(len(st) > 1 and k.startswith("betterproto_lib_") for k, st in col.items()) or inp.get("tgt") == "google.protobuf":
+            return "D50"
     if "D20" in ids and "universe-has-underscore-segment" in feats:
         # the generated module binds one name by two different import statements, and an underscore segment is involved
         col = inp.get("collisions") or {}
@@ -681,7 +691,7 @@ def replay(chk, rp):
 
 
 def replay_known(chk, entry):
-    u = {"D19": [D19_CAP, D19_LOWER], "D20": [D20_UNIVERSE]}.get(entry["id"], [])
+    u = {"D19": [D19_CAP, D19_LOWER], "D20": [D20_UNIVERSE], "D50": [D50_UNIVERSE]}.get(entry["id"], [])
     for uu in u:
         fails, _ = check_universe(uu)
         if any(classify({"kind": k, "input": i, "detail": d}, [entry]) == entry["id"] for k, i, d in fails):
